@@ -629,11 +629,60 @@ class C09(Check):
                 self.oracle_ignored += rel in ign
                 if (s == 0) != (rel in ign):
                     self.oracle_bad.append({"lines": c[3], "file": rel, "git_ignores": rel in ign, "S_member": s})
+        self._probe_unsupported(env)
         self._tree_key = None
         if self.oracle_bad:
             problems.append(f"S disagrees with git check-ignore on {len(self.oracle_bad)} files of {self.oracle_cases} "
                             f"trees: {self.oracle_bad[:3]}")
         return problems
+
+    def _probe_unsupported(self, env):
+        """Evidence only: what the implementation does, compared with git, on pattern lists OUTSIDE the
+        supported grammar (not claimed, not a violation): how often it raises, drops a file git keeps,
+        keeps a file git ignores."""
+        n = 150 if self.tier == "quick" else 2500
+        cases = []
+        for _ in range(n):
+            c = gen_case(self.rng, malformed=True)
+            c[1], c[2] = [], ["/r"]
+            c[4] = ["/" + "/".join(p) for (p, k) in c[0] if k == "F" and p[0] == "r" and is_src_name(p[-1])]
+            if c[4] and not any("\n" in l or "\0" in l for l in c[3]):
+                cases.append(c)
+        answers = common.run_model("C09", [self.encode(c) for c in cases])
+        probe = {"lists": 0, "raises": 0, "drops_a_file_git_keeps": 0, "keeps_a_file_git_ignores": 0, "agrees": 0, "examples": {}}
+        for c, a in zip(cases, answers):
+            if isinstance(a, str) or a[0] != "unsupported":
+                continue
+            ia = self.impl(c)
+            base = self.materialise(c[0])
+            root = base / "r"
+            if not (root / ".git").exists():
+                subprocess.run(["git", "init", "-q", str(root)], env=env, capture_output=True)
+            (root / ".git" / "info").mkdir(exist_ok=True)
+            (root / ".git" / "info" / "exclude").write_text("".join(l + "\n" for l in c[3]))
+            rels = [q[len("/r/"):] for q in c[4]]
+            pr = subprocess.run(["git", "-C", str(root), "check-ignore", "--no-index", "--stdin", "-z"],
+                                input="\0".join(rels) + "\0", capture_output=True, text=True, env=env)
+            if pr.returncode not in (0, 1) or ia[0] != "ok":
+                continue
+            ign = {x for x in pr.stdout.split("\0") if x}
+            probe["lists"] += 1
+            kinds = set()
+            for rel, x in zip(rels, ia[1]):
+                if isinstance(x, str):
+                    kinds.add("raises")
+                elif x == 0 and rel not in ign:
+                    kinds.add("drops_a_file_git_keeps")
+                elif x == 1 and rel in ign:
+                    kinds.add("keeps_a_file_git_ignores")
+            if not kinds:
+                probe["agrees"] += 1
+            for k in kinds:
+                probe[k] += 1
+                probe["examples"].setdefault(k, [])
+                if len(probe["examples"][k]) < 4:
+                    probe["examples"][k].append(c[3])
+        self.probe = probe
 
     def extra_coverage(self):
         return {"unsupported_pattern_cases": self.n_unsupported, "constructor_error_cases": self.n_ctor,
@@ -646,7 +695,8 @@ class C09(Check):
                 "spec_oracle": "git check-ignore --no-index --stdin -z, patterns in .git/info/exclude",
                 "spec_oracle_cases": self.oracle_cases, "spec_oracle_files": self.oracle_files,
                 "spec_oracle_files_ignored": self.oracle_ignored,
-                "spec_oracle_disagreements": len(self.oracle_bad)}
+                "spec_oracle_disagreements": len(self.oracle_bad),
+                "unsupported_region_probe_impl_vs_git_NOT_CLAIMED": getattr(self, "probe", None)}
 
 
 CHECK = C09
